@@ -23,7 +23,8 @@ Programs == <<
      <<Mn("c.sw"), Rg(9), OffS(64, 8)>>, <<Mn("jal"), Rg(1), Vb("L1")>>, <<Mn("bltu"), Rg(8), Rg(9), In(-4)>> >>,
   \* 3: data, alignment, upper immediates
   << <<Mn("bytes"), In(1), In(2), In(3), In(-1)>>, <<Mn("shorts"), In(4660), In(-2)>>, <<Mn("dw"), In(1000)>>,
-     <<Mn("pack"), Vb("<I"), In(77)>>, <<Mn("align"), In(4)>>, <<Mn("lui"), Rg(5), In(74565)>>, <<Mn("db"), In(-1)>> >>,
+     <<Mn("pack"), Vb("<I"), In(77)>>, <<Mn("align"), In(4)>>, <<Mn("lui"), Rg(5), In(74565)>>, <<Mn("db"), In(-1)>>,
+     <<Mn("include_bytes"), Vb("lexblob.bin")>> >>,
   \* 4: constants, pseudo-instructions, shifts
   << <<Mn("K"), Vb("="), In(5)>>, <<Mn("li"), Rg(9), In(100)>>, <<Mn("slli"), Rg(9), Rg(9), In(3)>>, <<Mn("mv"), Rg(8), Rg(9)>>,
      <<Mn("ret")>>, <<Mn("addi"), Rg(9), Rg(9), Vb("K")>>, <<Mn("li"), Rg(8), In(-305419896)>> >>,
